@@ -78,6 +78,13 @@ type HostSpec struct {
 	// the backends it routes to and the other way round: so does Apply.
 	Backend string `json:"backend,omitempty"`
 	Path    string `json:"path,omitempty"` // "" = "/"; another path leaves "/" to strict-host
+	// PathCfg / Path2Cfg: per path configuration of the backend path(s) of this host (what the
+	// annotations set on hatypes.BackendPath): "" default, "sslredir", "hsts", "body", "allow".
+	// Path2Cfg != "" adds a second path /p2 to the same backend with that configuration. Paths of
+	// one backend with different configurations make Backend.NeedACL() true: path id maps are
+	// written and the template renders the per path ACLs.
+	PathCfg  string `json:"path_cfg,omitempty"`
+	Path2Cfg string `json:"path2_cfg,omitempty"`
 	// AuthTLS: auth-tls-secret, TLS.CAFilename / CAHash set; SyncConfig derives Backend.TLS.HasTLSAuth
 	AuthTLS string `json:"auth_tls,omitempty"` // content version of the CA bundle, "" = none
 	// Passthrough: ssl-passthrough host; SyncConfig derives the frontend layout from it
@@ -166,6 +173,12 @@ type BackObs struct {
 	OldCfg   []string  `json:"-"`
 	CurCfg   []string  `json:"-"`
 	CfgDiff  []string  `json:"cfg_diff,omitempty"` // names of differing Backend fields (all of them)
+	// PreCfg: digests of the re-created backend before HAProxyUpdate. Backends.Shrink runs before
+	// WriteBackendMaps assigns PathsMap / PathsDefaultHostMap and builds pathConfig: for these
+	// fields it sees the values of the fresh object (EarlyCfg = CurCfg with them taken from PreCfg)
+	PreCfg   []string `json:"-"`
+	EarlyCfg []string `json:"-"`
+	NeedACL  bool     `json:"need_acl,omitempty"` // paths with different per path configurations
 	Flags    BackFlags
 	Res      []EpDump               `json:"res"` // endpoints of the backend kept in Items() after the update
 	Exch     []fakehaproxy.Exchange `json:"exch,omitempty"`
@@ -384,7 +397,11 @@ func (w *World) buildHost(cfg haproxy.Config, s *HostSpec) *hatypes.Host {
 		path = "/"
 	}
 	// nil when the host has no backend (or it is gone): a path to _error404
-	h.AddPath(cfg.Backends().Items()[s.Backend], path, hatypes.MatchBegin)
+	back := cfg.Backends().Items()[s.Backend]
+	applyPathCfg(back, h.AddPath(back, path, hatypes.MatchBegin), s.PathCfg)
+	if s.Path2Cfg != "" && back != nil {
+		applyPathCfg(back, h.AddPath(back, "/p2", hatypes.MatchBegin), s.Path2Cfg)
+	}
 	h.RootRedirect = s.Extra
 	if s.Passthrough {
 		h.SetSSLPassthrough(true)
@@ -407,6 +424,32 @@ func (w *World) buildHost(cfg haproxy.Config, s *HostSpec) *hatypes.Host {
 		Mutate(h, s.Mut)
 	}
 	return h
+}
+
+// PathCfgKinds are the per path configurations the driver knows ("" = the default one).
+var PathCfgKinds = []string{"sslredir", "hsts", "body", "allow"}
+
+// applyPathCfg sets the per path configuration on the backend path of a host path, the way the
+// annotation updater does after the converter linked host and backend.
+func applyPathCfg(back *hatypes.Backend, hp *hatypes.HostPath, kind string) {
+	if back == nil || hp == nil || kind == "" {
+		return
+	}
+	bp := back.FindBackendPath(hp.Link)
+	if bp == nil {
+		return
+	}
+	switch kind {
+	case "sslredir":
+		bp.SSLRedirect = true
+	case "hsts":
+		bp.HSTS.Enabled = true
+		bp.HSTS.MaxAge = 15768000
+	case "body":
+		bp.MaxBodySize = 1048576
+	case "allow":
+		bp.AllowedIPHTTP.Rule = []string{"10.0.0.0/8"}
+	}
 }
 
 // Mutate alters the named field of a struct (pointer) so that it differs from a
@@ -721,6 +764,7 @@ func (w *World) Apply(st *Step) (obs *StepObs) {
 			t.obs.OldFlags = FlagsOf(t.old)
 		}
 		t.obs.Cur = DumpEps(t.cur)
+		t.obs.PreCfg = w.BackendCfg(t.cur)
 	}
 	sigBefore := w.cfgSignature()
 	obs.Before = w.Fake.St.Clone()
@@ -772,6 +816,13 @@ func (w *World) Apply(st *Step) (obs *StepObs) {
 		t.obs.Shrunk = t.old != nil && kept == t.old
 		t.obs.Flags = FlagsOf(t.cur)
 		t.obs.CurCfg = w.BackendCfg(t.cur)
+		t.obs.EarlyCfg = append([]string(nil), t.obs.CurCfg...)
+		for i, n := range bnames {
+			if n == "PathsMap" || n == "PathsDefaultHostMap" || n == "pathConfig" {
+				t.obs.EarlyCfg[i] = t.obs.PreCfg[i]
+			}
+		}
+		t.obs.NeedACL = t.cur.NeedACL()
 		if t.old != nil {
 			t.obs.OldCfg = w.BackendCfg(t.old)
 			t.obs.CfgDiff = diffNames(bnames, t.obs.OldCfg, t.obs.CurCfg)
